@@ -13,6 +13,7 @@ semantics (truncating division, MOD with the sign of the dividend) on a
 grid of valuations plus larger pseudo-random ones; arrays are uninterpreted
 functions realised by a deterministic table.
 """
+import os
 from fractions import Fraction
 
 from hypothesis import strategies as st
@@ -36,7 +37,9 @@ RULE = ("pairs of integer expression trees: (A) exhaustive - all unordered "
         "syntactically identical and equal() or never_equal() returned True "
         "or solve_equal_for returned a non-empty solution set (the verdict is "
         "then checked on every defined valuation); distinct = (e1, e2, "
-        "verdict kind)")
+        "verdict kind). Pairs built only by ring identities over + - * ** "
+        "unary - and array accesses must in addition be reported equal "
+        "(never_equal when a non-zero constant was added)")
 ASSUMPTIONS = [
     "Fortran integer overflow is not modelled: values are mathematical "
     "integers",
@@ -52,6 +55,9 @@ ASSUMPTIONS = [
     "evaluates to a rational); 'independent' is documented as a "
     "conservative answer and asserts nothing; completeness of the solution "
     "set is only recorded as a label",
+    "completeness is asserted only where the docstrings of equal / "
+    "never_equal promise it and SymPy decides it: pairs related by "
+    "commutative-ring identities (optionally plus a non-zero constant)",
     "an exception raised by SymPy inside solve_equal_for (e.g. "
     "NotImplementedError for Min/Max equations) is not a wrong verdict and "
     "is only counted",
@@ -251,13 +257,21 @@ def call_verdict(which, n1, n2):
     return sym.never_equal(n1, n2)
 
 
-def check_verdict(which, t1, t2, vseed, cache=None):
-    """equal / never_equal. -> (verdict, truth-label, failure|None)."""
+def check_verdict(which, t1, t2, vseed, cache=None, must=False):
+    """equal / never_equal. -> (verdict, truth-label, failure|None).
+
+    `must`: the pair was built by ring identities (and a non-zero constant
+    offset for never_equal), so that the documented result ("whether the two
+    expressions are mathematically identical" / "guaranteed to be
+    different") is True; a False verdict is then reported as 'missed'."""
     _, n1, n2 = build_pair(t1, t2)
     case = {"oracle": which, "e1": t1, "e2": t2, "vseed": vseed}
+    if must:
+        case["must"] = True
     try:
         verdict = call_verdict(which, n1, n2)
     except Exception as err:       # pylint: disable=broad-except
+        case["exception"] = type(err).__name__
         return None, "exception", (
             f"exception:{which}:{type(err).__name__}", case,
             f"{which}({fi.show(t1)}, {fi.show(t2)}) raised "
@@ -274,7 +288,20 @@ def check_verdict(which, t1, t2, vseed, cache=None):
         v2, _ = fi.eval_all(t2, envs)
     _, same, diff = compare(v1, v2)
     truth = truth_label(same, diff)
+    if must and truth != ("alleq" if which == "equal" else "neverEq"):
+        raise HarnessError(
+            f"pair built as a ring identity for {which} but truth={truth}: "
+            f"{fi.show(t1)} | {fi.show(t2)}")
     if not verdict:
+        if must:
+            case["missed"] = True
+            rel = "identical" if which == "equal" else \
+                "different by a non-zero constant"
+            return verdict, truth, (
+                f"{which}-missed[{feature_tag(t1, t2)}]", case,
+                f"{which}({fi.show(t1)}, {fi.show(t2)}) is False although "
+                f"the expressions are {rel} by ring identities (and on all "
+                f"{len(same) + len(diff)} tested valuations)")
         return verdict, truth, None
     bad = diff if which == "equal" else same
     if not bad:
@@ -327,6 +354,7 @@ def check_expand(term, vseed):
     try:
         SymbolicMaths.get().expand(blt.node)
     except Exception as err:       # pylint: disable=broad-except
+        case["exception"] = type(err).__name__
         return "exception", (
             f"exception:expand:{type(err).__name__}", case,
             f"expand({fi.show(term)}) raised {type(err).__name__}: "
@@ -345,6 +373,7 @@ def check_roundtrip(term, vseed):
         sympy_expr = writer(blt.node)
         back = SymPyReader(writer).psyir_from_expression(sympy_expr, blt.tab)
     except Exception as err:       # pylint: disable=broad-except
+        case["exception"] = type(err).__name__
         return "exception", (
             f"exception:roundtrip:{type(err).__name__}", case,
             f"SymPy round trip of {fi.show(term)} raised "
@@ -475,61 +504,129 @@ def check_solve(t1, t2, var, vseed):
 # --------------------------------------------------------------------------
 # classifiers for known findings
 # --------------------------------------------------------------------------
-def _explained_by(case, need_event, sems):
-    """True iff (a) the *input* expression(s) raise `need_event` (inexact
-    `/`, or MOD whose Fortran value differs from the floored one) on some
-    tested valuation and (b) every counter-example disappears when the
-    operation is given SymPy's real-number meaning (`sems`)."""
+def has_nested_pow(term):
+    """Some `**` has a `**` as its LEFT operand: (x ** a) ** b."""
+    return any(t[0] == "**" and t[1][0] == "**" for t in fi.subterms(term))
+
+
+def reassoc_pow(term):
+    """(x ** a) ** b  ->  x ** (a ** b) everywhere (what the text
+    'x ** a ** b' means in Fortran and Python)."""
+    if term[0] in ("c", "v"):
+        return term
+    start = 2 if term[0] == "arr" else 1
+    term = term[:start] + [reassoc_pow(t) for t in term[start:]]
+    while term[0] == "**" and term[1][0] == "**":
+        term = ["**", term[1][1], reassoc_pow(["**", term[1][2], term[2]])]
+    return term
+
+
+def _explained_by(case, need_event, need_pow, variants):
+    """True iff (a) the *input* expression(s) have the feature - they contain
+    a `/` (a MOD) and `need_event` is raised on some tested valuation
+    (inexact `/`; MOD whose Fortran value differs from the floored one) /
+    they contain a nested power - and
+    (b) every counter-example disappears under one of the `variants`
+    (semantics, reassociate-powers?), i.e. when the operation is given the
+    meaning PSyclone's translation gives it. For a case that records an
+    exception (b) reads: under the variant an input expression has no value
+    on any tested valuation (SymPy met the division by zero while
+    simplifying). solve_equal_for cases only involve nested powers: (b) is
+    decided by re-running the oracle on the re-associated input."""
     oracle = case.get("oracle")
-    if oracle in ("equal", "never_equal"):
+    if oracle in ("equal", "never_equal", "solve"):
         inputs = [case["e1"], case["e2"]]
         lhs, rhs = case["e1"], case["e2"]
         heavy = True
     elif oracle in ("expand", "roundtrip"):
-        if "out" not in case:
+        if "out" not in case and "exception" not in case:
             return False
         inputs = [case["e1"]]
-        lhs, rhs = case["e1"], case["out"]
+        lhs, rhs = case["e1"], case.get("out", case["e1"])
         heavy = False
     else:
         return False
     envs = envs_for(pair_names(lhs, rhs), case["vseed"], heavy=heavy)
-    events = 0
-    for term in inputs:
-        events |= fi.eval_all(term, envs)[1]
-    if not events & need_event:
+    if need_event:
+        # the operation occurs in the input, and it is inexact / has the
+        # other sign on some tested valuation - in the input itself or in
+        # PSyclone's re-arrangement of it (e.g. (i*i+i)/2 is always exact
+        # but its expansion i**2/2 + i/2 is not)
+        oper = "/" if need_event == fi.EV_INEXACT_DIV else "mod"
+        if not any(oper in fi.ops(term) for term in inputs):
+            return False
+        events = 0
+        for term in (lhs, rhs):
+            try:
+                events |= fi.eval_all(term, envs)[1]
+            except fi.Unsupported:
+                pass
+        if not events & need_event:
+            return False
+    nested = any(has_nested_pow(t) for t in inputs)
+    if need_pow and not nested:
         return False
-    for sem in sems:
+    if oracle == "solve":
+        if not need_pow:
+            return False
+        return check_solve(reassoc_pow(lhs), reassoc_pow(rhs), case["var"],
+                           case["vseed"])[2] is None
+    for sem, repow in variants:
+        if repow and not nested:
+            continue
+        left = reassoc_pow(lhs) if repow else lhs
+        right = reassoc_pow(rhs) if repow else rhs
         try:
-            v1, _ = fi.eval_all(lhs, envs, sem)
-            v2, _ = fi.eval_all(rhs, envs, sem)
+            v1, _ = fi.eval_all(left, envs, sem)
+            v2, _ = fi.eval_all(right, envs, sem)
         except fi.Unsupported:
+            continue
+        if "exception" in case:
+            if all(v is None for v in v1) or all(v is None for v in v2):
+                return True
             continue
         _, same, diff = compare(v1, v2)
         if not same and not diff:
             continue
         bad = same if oracle == "never_equal" else diff
+        if case.get("missed"):
+            # a True verdict was expected: PSyclone's False is explained
+            # if the relation really fails under the variant reading
+            if bad:
+                return True
+            continue
         if not bad:
             return True
     return False
+
+
+def cls_nested_power(case):
+    """Input contains (x ** a) ** b, which FortranWriter (hence SymPyWriter)
+    prints as 'x ** a ** b' = x ** (a ** b); the failure vanishes when the
+    input is read that way. Same root cause as the C02 finding."""
+    return _explained_by(case, 0, True, [(fi.FORTRAN, True)])
 
 
 def cls_mod_sign(case):
     """Input contains a MOD whose Fortran value (sign of dividend) differs
     from SymPy's Mod (sign of divisor) on a tested valuation, and the failure
     vanishes when MOD is given the floored meaning."""
-    return _explained_by(case, fi.EV_MOD_SIGN, [fi.MODFLOOR])
+    return _explained_by(case, fi.EV_MOD_SIGN, False,
+                         [(fi.MODFLOOR, False), (fi.MODFLOOR, True)])
 
 
 def cls_inexact_division(case):
     """Input contains an integer `/` that is inexact on a tested valuation,
     and the failure vanishes when `/` is exact rational division (with
-    either reading of MOD, so that mixed cases are attributed here)."""
-    return _explained_by(case, fi.EV_INEXACT_DIV,
-                         [fi.EXACTDIV, fi.EXACTDIV_MODFLOOR])
+    either reading of MOD / nested powers, so that cases mixing several
+    known root causes are attributed here)."""
+    return _explained_by(case, fi.EV_INEXACT_DIV, False,
+                         [(fi.EXACTDIV, False), (fi.EXACTDIV_MODFLOOR, False),
+                          (fi.EXACTDIV, True), (fi.EXACTDIV_MODFLOOR, True)])
 
 
 CLASSIFIERS = {
+    "nested_power_right_assoc": cls_nested_power,
     "mod_sign_of_divisor": cls_mod_sign,
     "inexact_integer_division": cls_inexact_division,
 }
@@ -599,8 +696,13 @@ def gen_term(draw, size, pool):
     if kind == "sv":
         return ["arr", "s%v", gen_term(draw, size - 1, pool)]
     if kind == "pow":
-        return ["**", gen_term(draw, size - 2, pool),
-                C(draw(st.sampled_from([0, 1, 2, 2, 2, 3])))]
+        base = gen_term(draw, size - 2, pool)
+        if base[0] == "**" and base[1][0] == "**":
+            # ((x**a)**b)**c is printed as x**a**b**c = x**(a**(b**c)): with
+            # a literal x SymPy would have to build an astronomically large
+            # integer. Two levels are enough to exercise that reading.
+            base = ["neg", base]
+        return ["**", base, C(draw(st.sampled_from([0, 1, 2, 2, 2, 3])))]
     if kind in ("min3", "max3"):
         first = draw(st.integers(1, size - 3))
         second = draw(st.integers(1, size - 2 - first))
@@ -618,6 +720,16 @@ def gen_term(draw, size, pool):
         rhs = C(draw(st.sampled_from([1, 2, 2, 3, 4])))
         lhs = gen_term(draw, size - 2, pool)
     return [kind, lhs, rhs]
+
+
+# rewrite rules that are identities of commutative rings (hold for integers
+# and for SymPy's reals alike), and the operators closed under them
+SOUND_RING = {"add0", "sub0", "mul1", "negneg", "plusminus_c", "times2",
+              "commute", "assoc_r", "assoc_l", "sub_to_addneg",
+              "sub_swap_neg", "sub_open", "distribute_r", "distribute_l",
+              "pull_neg", "neg_to_0minus", "neg_to_mul", "neg_open",
+              "pow_unroll"}
+RING_OPS = {"+", "-", "*", "neg", "**", "arr"}
 
 
 def rewrite_rules(term):
@@ -837,9 +949,15 @@ def pair_cases(draw):
                 other = ["-", ["+", other, C(cst[1] + 3)], C(3)]
         elif mode == "nearmiss":
             other = perturb(draw, other, pool)
+    ring = (mode in ("rewrite", "offset") and set(rules) <= SOUND_RING
+            and (fi.ops(base) | fi.ops(other)) <= RING_OPS)
+    must = None
+    if ring:
+        must = "equal" if mode == "rewrite" else "never_equal"
     if draw(st.booleans()):
         base, other = other, base
     return {"mode": mode, "e1": base, "e2": other, "rules": rules,
+            "must": must,
             "vseed": draw(st.integers(0, 2 ** 32 - 1)),
             "varpick": draw(st.integers(0, 7))}
 
@@ -949,9 +1067,12 @@ def run(ctx):
         identical = t1 == t2
         failures = []
         for which in ("equal", "never_equal"):
+            must = case.get("must") == which
             verdict, truth, failure = check_verdict(
-                which, t1, t2, vseed, cache=(envs, v1, v2))
+                which, t1, t2, vseed, cache=(envs, v1, v2), must=must)
             ctx.label(f"{which}={verdict}:truth={truth}")
+            if must:
+                ctx.label(f"ring-identity:{which}={verdict}")
             if verdict is True and not identical:
                 ctx.nontriv([t1, t2, which])
                 ctx.label(f"nontrivial:{which}:{mode}")
@@ -987,7 +1108,13 @@ def run(ctx):
         for failure in failures:
             ctx.fail(*failure)
 
-    ctx.hyp(prop, pair_cases(), max_examples=ctx.scale(9000, 400000))
+    budget = ctx.scale(12000, 400000)
+    # test aids (sensitivity runs on a loaded machine):
+    # VERIF_C17_SCALE=0.2 VERIF_C17_SHRINK=0
+    budget = max(20, int(budget * float(os.environ.get("VERIF_C17_SCALE",
+                                                       "1"))))
+    ctx.hyp(prop, pair_cases(), max_examples=budget,
+            shrink=os.environ.get("VERIF_C17_SHRINK", "1") != "0")
 
 
 def replay(case):
@@ -995,7 +1122,8 @@ def replay(case):
     oracle = case.get("oracle")
     vseed = case.get("vseed", 0)
     if oracle in ("equal", "never_equal"):
-        failure = check_verdict(oracle, case["e1"], case["e2"], vseed)[2]
+        failure = check_verdict(oracle, case["e1"], case["e2"], vseed,
+                                must=bool(case.get("must")))[2]
     elif oracle == "expand":
         failure = check_expand(case["e1"], vseed)[1]
     elif oracle == "roundtrip":
